@@ -291,12 +291,13 @@ def run_cases(ctx, cases, prop="C14", classify_fn=None):
 
 def run(ctx):
     ctx.make_overlay(need_kernel=True)
-    ctx.regen_all(needed=("py2v_reject.py", "consts2v.py"))  # Gen/RejectSites.v, Gen/ConstsGen.v: rejection sites and loop bounds as the source has them now
+    ctx.regen_all(needed=("py2v_reject.py", "consts2v.py", "py2v_iter.py"))  # Gen/RejectSites.v, Gen/ConstsGen.v: rejection sites and loop bounds as the source has them now
     ok = ctx.build_models(MODELS)
     if ok:
         ctx.build_props()
         ctx.build_props("Props/C02g.vo")  # the generated rejection sites (rule, truncation, index spaces, columns) are the model
         ctx.build_props("Props/C14c.vo")  # loop bounds read from the source
+        ctx.build_props("Props/C14b.vo")  # block bookkeeping of both iterative loops, generated from the source: contiguous, disjoint, within the limit
     cases = load_corpus("C14") + gen_cases(ctx)
     n_eval = nt = 0
     try:
@@ -319,7 +320,7 @@ def run(ctx):
         "likelihood profiles narrow, wide, ties, flat, spike, -inf entries, a NaN entry, all NaN (stub helper) and the real kernel for 1 in 9; "
         "non-trivial = more than one iteration, or a raise",
         assumptions=["as C02 (decision margin 1e-9, recording Generator)", "batch sizes are read off the sizes of the successive uniform() calls"],
-        trusted_extra=["Coq-Interval through Base/RealEnc.v (acceptance decisions)", "translators tools/py2v_reject.py, tools/consts2v.py (fail-closed)"],
+        trusted_extra=["Coq-Interval through Base/RealEnc.v (acceptance decisions)", "translators tools/py2v_reject.py, tools/consts2v.py, tools/py2v_iter.py (fail-closed)"],
     )
 
 
